@@ -215,6 +215,20 @@ func SketchCounters[K comparable, V any](s *Store[K, V], key K) (pos [4]uint32, 
 	return
 }
 
+// FlightRegistered reports whether the loading singleflight group of key's shard has a call
+// registered for key (white-box witness for C13: a running load must stay joinable).
+//
+//go:norace
+func FlightRegistered[K comparable, V any](s *Store[K, V], key K) bool {
+	_, i := s.index(key)
+	shard := s.shards[i]
+	if shard.group == nil || shard.group.m == nil {
+		return false
+	}
+	_, ok := shard.group.m[key]
+	return ok
+}
+
 //go:norace
 func ShardIndex[K comparable, V any](s *Store[K, V], key K) int {
 	_, i := s.index(key)
